@@ -13,24 +13,24 @@ func TestShape(t *testing.T) {
 	archs := []Arch{{1, 10}, {5, 12}} // 1s:10s, 5s:60s
 	now := int64(1000)
 	cases := []struct {
-		id               int
-		from, until      int64
-		kind             ShapeKind
-		arch             int
-		f, u, step, cnt  int64
+		id              int
+		from, until     int64
+		kind            ShapeKind
+		arch            int
+		f, u, step, cnt int64
 	}{
 		{0, 995, 1000, ShapeSeries, 0, 996, 1001, 1, 5},
-		{0, 900, 1000, ShapeSeries, 0, 991, 1001, 1, 10},     // clamped to now-10
-		{0, 1001, 1002, ShapeNone, 0, 0, 0, 0, 0},            // wholly in the future
-		{0, 900, 989, ShapeNone, 0, 0, 0, 0, 0},              // wholly before the retention
-		{0, 900, 990, ShapeSeries, 0, 991, 992, 1, 1},        // until == oldest: degenerate, extended
-		{1, 998, 999, ShapeSeries, 1, 1000, 1005, 5, 1},      // sub-step window, extended by one step
-		{1, 940, 1000, ShapeSeries, 1, 945, 1005, 5, 12},     // whole retention
-		{-1, 995, 1000, ShapeSeries, 0, 996, 1001, 1, 5},     // best: age 5 <= 10
-		{-1, 989, 1000, ShapeSeries, 1, 990, 1005, 5, 3},     // best: age 11 > 10 -> archive 1
-		{-1, 0, 1000, ShapeSeries, 1, 945, 1005, 5, 12},      // from = 0: coarsest
-		{0, 10, 5, ShapeError, 0, 0, 0, 0, 0},                // from > until
-		{2, 990, 1000, ShapeError, 0, 0, 0, 0, 0},            // id out of range
+		{0, 900, 1000, ShapeSeries, 0, 991, 1001, 1, 10}, // clamped to now-10
+		{0, 1001, 1002, ShapeNone, 0, 0, 0, 0, 0},        // wholly in the future
+		{0, 900, 989, ShapeNone, 0, 0, 0, 0, 0},          // wholly before the retention
+		{0, 900, 990, ShapeSeries, 0, 991, 992, 1, 1},    // until == oldest: degenerate, extended
+		{1, 998, 999, ShapeSeries, 1, 1000, 1005, 5, 1},  // sub-step window, extended by one step
+		{1, 940, 1000, ShapeSeries, 1, 945, 1005, 5, 12}, // whole retention
+		{-1, 995, 1000, ShapeSeries, 0, 996, 1001, 1, 5}, // best: age 5 <= 10
+		{-1, 989, 1000, ShapeSeries, 1, 990, 1005, 5, 3}, // best: age 11 > 10 -> archive 1
+		{-1, 0, 1000, ShapeSeries, 1, 945, 1005, 5, 12},  // from = 0: coarsest
+		{0, 10, 5, ShapeError, 0, 0, 0, 0, 0},            // from > until
+		{2, 990, 1000, ShapeError, 0, 0, 0, 0, 0},        // id out of range
 		{-2, 990, 1000, ShapeError, 0, 0, 0, 0, 0},
 	}
 	for i, c := range cases {
